@@ -90,6 +90,10 @@ func drawSetup(c *kit.Chooser) setup {
 		if s.whale && i == 0 {
 			st = uint64(600000 + 100000*c.Intn("whale-stake", 4))
 		}
+		if i == 3 && c.Chance("dust", 1, 3) {
+			// a validator at the minimum stake: it regularly gets zero seats
+			st = uint64(1000 + 1000*c.Intn("dust-stake", 3))
+		}
 		s.Stakes = append(s.Stakes, st)
 		s.Offline = append(s.Offline, i >= 2 && c.Chance("offline", 1, 3))
 		s.House = append(s.House, i >= 2 && c.Chance("house", 1, 4))
